@@ -231,7 +231,7 @@ Section BoundedSource.
     assert (Ppos : (0 < R2R maxv)%R) by (apply R2R_sign_pos; assumption).
     destruct (ovr false) as [pos|] eqn:E1; [|discriminate].
     destruct (ovr true) as [neg|] eqn:E2; [|discriminate].
-    destruct pos as [a|sa|sa], neg as [b|sb|sb]; try discriminate.
+    destruct pos as [a|[|]|sa], neg as [b|[|]|sb]; try discriminate.
     - (* saturating *)
       destruct (rf_eqb a maxv && rf_eqb b negv) eqn:Eab; [|discriminate]. injection Hpol as Hpol.
       apply andb_prop in Eab as [Ea Eb].
@@ -244,7 +244,7 @@ Section BoundedSource.
       + rewrite E1. cbn [vequiv fl_equiv]. rewrite Ea. split; [reflexivity|].
         rewrite Sp. symmetry. apply (proj1 (sign_of_R a Wa)). lra.
     - (* infinite *)
-      destruct sa; [discriminate|]. destruct sb; [|discriminate]. injection Hpol as Hpol.
+      injection Hpol as Hpol.
       unfold ovr_fixed, ovF, spF. rewrite <- Hpol. cbn [sp_enable_inf].
       destruct sg.
       + rewrite (Hnonfin true _ E2 eq_refl), E2. apply vequiv_refl.
@@ -294,7 +294,7 @@ Section BoundedSource.
     - (* clamped: both overflow *)
       assert (O1 : is_overflowing maxv negv y = true).
       { apply (beyond_overflows (fexp_of (Some p) (Some nmin)) rm maxv negv xr y); try assumption.
-        - apply valid_fexp_of. exact Hp.
+        - apply valid_fexp_of. lia.
         - cbn [fexp_of]. apply generic_format_FLT_bpow; [unfold Prec_gt_0; lia|].
           (* the bound is a format member, so its exponent is at least the floor *)
           assert (Cm : 0 < rc maxv) by (unfold rf_wf in Wp; lia).
@@ -316,3 +316,290 @@ Section BoundedSource.
       rewrite O1, O2. replace (rs y') with (rs y) by congruence. apply overflow_agrees.
   Qed.
 End BoundedSource.
+
+(* ---------------------------------------------------------------- an unbounded float source *)
+(* the emitted bound 2^k states how far the operand reaches: nothing overflows it *)
+Lemma reach_holds nfix k rm xr y' f' :
+  rf_wf xr -> rc xr <> 0 -> nfix + 1 <= k -> rf_e xr + 1 <= k ->
+  rf_round xr None (Some nfix) rm false = Ok (y', f') ->
+  vround (CMPBFixed nfix (RF false k 1) (neg_rf (RF false k 1)) rm OV_ASSERT (Some 0) (SP false false None None) true) (FFin xr)
+  = Ok (FFin y').
+Proof.
+  intros Hw Hnz Hk He Hr.
+  assert (Hnw : OV_ASSERT <> OV_WRAP) by discriminate.
+  destruct (mpbfixed_bounded nfix (RF false k 1) (neg_rf (RF false k 1)) rm OV_ASSERT (SP false false None None) true Hnw) as [HF _].
+  destruct (HF xr Hw Hnz) as (y2 & f2 & Hr2 & _ & HC). rewrite Hr in Hr2. injection Hr2 as <- <-.
+  rewrite HC. rewrite fnz_true.
+  assert (Hsome : @None Z <> None \/ Some nfix <> None) by (right; discriminate).
+  destruct (rf_round_spec xr None (Some nfix) rm Hw Hnz I Hsome) as (y3 & f3 & Hr3 & Hv & Hs & Wy & _).
+  rewrite Hr in Hr3. injection Hr3 as <- <-.
+  assert (Cx : 0 < rc xr) by (unfold rf_wf in Hw; lia).
+  pose proof (R2R_abs_bounds xr Cx) as [_ X2].
+  assert (Wr : rf_wf (RF false k 1)) by (unfold rf_wf; simpl; lia).
+  assert (Rr : R2R (RF false k 1) = bpow radix2 k).
+  { unfold R2R, rf_m, F2R. cbn. ring. }
+  assert (Hov : is_overflowing (RF false k 1) (neg_rf (RF false k 1)) y' = false).
+  { apply (is_overflowing_spec _ _ y' Wr (neg_rf_wf _ Wr) Wy eq_refl (or_introl eq_refl)).
+    unfold in_range. rewrite (neg_rf_R (RF false k 1) eq_refl), Rr. apply Rabs_le_inv. rewrite Hv.
+    apply abs_round_le_generic.
+    - apply valid_fexp_of. exact I.
+    - apply valid_rnd_of.
+    - cbn [fexp_of]. apply generic_format_bpow. unfold FIX_exp. lia.
+    - apply Rlt_le. apply Rlt_le_trans with (bpow radix2 (rf_e xr + 1)); [exact X2|apply bpow_le; lia]. }
+  rewrite Hov. reflexivity.
+Qed.
+
+Lemma mpsfloat_fin p emin rm sp xr y f : rc xr <> 0 ->
+  rf_round xr (Some p) (Some (mps_nmin p emin)) rm false = Ok (y, f) ->
+  vround (CMPSFloat p emin rm (Some 0) sp) (FFin xr) = Ok (FFin y).
+Proof.
+  intros Hnz Hr. unfold vround, ctx_round0, ctx_round, round_mpsfloat, special_float, clamp_n, rf_round_k.
+  rewrite (is_zero_false xr Hnz), Hr. reflexivity.
+Qed.
+
+Lemma mpfloat_fin p rm sp xr y f : rc xr <> 0 ->
+  rf_round xr (Some p) None rm false = Ok (y, f) ->
+  vround (CMPFloat p rm (Some 0) sp) (FFin xr) = Ok (FFin y).
+Proof.
+  intros Hnz Hr. unfold vround, ctx_round0, ctx_round, round_mpfloat, special_float, rf_round_k.
+  rewrite (is_zero_false xr Hnz), Hr. reflexivity.
+Qed.
+
+(* ---------------------------------------------------------------- the emitted program *)
+Lemma sem_f2f_lp s x :
+  sem (f2f_lp s) x =
+  match x with
+  | FNaN _ => Ok (ff_nan s)
+  | FInf sg => Ok (if sg then ff_ninf s else ff_pinf s)
+  | FFin r =>
+      if is_zero r then Ok (if rs r then ff_nz s else ff_pz s)
+      else
+        let e := rf_e r in
+        match ff_em s with
+        | Some (emin, expmin) =>
+            if e <? emin then sem (f2f_round s (expmin - 1) (RF false emin 1)) x
+            else sem (f2f_round s (f2f_pos (ff_pmax s) (ff_em s) (ff_expmax s) e - 1)
+                                (RF false (f2f_pos (ff_pmax s) (ff_em s) (ff_expmax s) e + ff_pmax s) 1)) x
+        | None => sem (f2f_round s (f2f_pos (ff_pmax s) (ff_em s) (ff_expmax s) e - 1)
+                                  (RF false (f2f_pos (ff_pmax s) (ff_em s) (ff_expmax s) e + ff_pmax s) 1)) x
+        end
+  end.
+Proof.
+  unfold f2f_lp. destruct x as [r|sg|sg]; cbn [sem eval_test fl_isnan fl_isinf fl_s].
+  - rewrite fl_eq0_fin. destruct (is_zero r) eqn:Hz; [reflexivity|].
+    destruct (ff_em s) as [[emin expmin]|]; reflexivity.
+  - destruct sg; reflexivity.
+  - destruct sg; reflexivity.
+Qed.
+
+Lemma f2f_pos_clamped' p em expmin expmax e : expmax < e - p + 1 ->
+  f2f_pos p (Some (em, expmin)) (Some expmax) e = expmax.
+Proof. unfold f2f_pos. lia. Qed.
+
+(* what the float constructors guarantee *)
+Definition f2f_ctx_ok (c : ctx) : Prop :=
+  match c with
+  | CMPFloat p _ _ _ | CMPSFloat p _ _ _ _ => 1 <= p
+  | CMPBFloat _ _ _ _ _ _ _ _ | CEFloat _ _ _ _ _ _ _ _ _ _ => uo_ctx_ok c
+  | _ => True
+  end.
+
+(* a format with a non-zero finite value *)
+Definition f2f_nondegenerate (c : ctx) : Prop :=
+  match uo_parts c with Some (_, maxv, _, _, _) => rc maxv <> 0 | None => True end.
+
+Lemma mirror_facts maxv negv : rf_wf maxv -> rf_wf negv -> rs maxv = false -> rc maxv <> 0 ->
+  rf_eqb negv (neg_rf maxv) = true ->
+  R2R negv = (- R2R maxv)%R /\ rs negv = true /\ rc negv <> 0.
+Proof.
+  intros Wp Wn Sp Cp He. apply (eq_iff_denote negv (neg_rf maxv) Wn (neg_rf_wf _ Wp)) in He.
+  rewrite (neg_rf_R maxv Sp) in He. split; [exact He|].
+  assert (Ppos : (0 < R2R maxv)%R) by (apply R2R_sign_pos; assumption).
+  split.
+  - apply (proj2 (sign_of_R negv Wn)). lra.
+  - intros Z0. rewrite (R2R_zero negv Z0) in He. lra.
+Qed.
+
+Section BoundedAssembly.
+  Variables (c U : ctx) (maxv negv : rf) (p emin : Z) (rm : rmode) (ovr : bool -> vres) (zC : bool).
+  Hypothesis Hb : bounded_as c U maxv negv (Some p) (mps_nmin p emin) rm ovr true zC.
+  Hypothesis Hbo : bounds_ok (Some p) (mps_nmin p emin) maxv negv.
+  Hypothesis Hmirror : R2R negv = (- R2R maxv)%R.
+  Hypothesis Hovw : forall sg v, ovr sg = Ok v -> fl_wf v.
+  Hypothesis Hnonfin : forall sg v, ovr sg = Ok v -> fl_isfinite v = false -> overflow_to_infinity rm sg = true.
+  Hypothesis Hnan : forall sg, vround c (FNaN sg) = vround c (FNaN false).
+  Hypothesis Hreal : c <> CReal.
+  Variables (pol : policy) (a b b' z z' : fl).
+  Let s := F2F p (Some (emin, emin - p + 1)) (Some (rf_e maxv - p + 1)) (Some maxv) rm pol a b b' z z'.
+  Hypothesis Hpol : f2f_policy c maxv negv = Some pol.
+  Hypothesis Ha : vround c pos_nan = Ok a.
+  Hypothesis Hbb : vround c pos_inf = Ok b.
+  Hypothesis Hbb' : vround c (FInf true) = Ok b'.
+  Hypothesis Hzz : vround c pos_zero = Ok z.
+  Hypothesis Hzz' : vround c (FFin (RF true 0 0)) = Ok z'.
+
+  Lemma bounded_assembly x : fl_wf x -> vequiv (sem (f2f_lp s) x) (vround c x).
+  Proof.
+    intros Hw. rewrite sem_f2f_lp. destruct x as [r|sg|sg].
+    - destruct (is_zero r) eqn:Hz.
+      + rewrite (vround_zero c r Hreal Hz). cbn [ff_nz ff_pz s].
+        destruct (rs r); [rewrite Hzz'|fold zero_rf; fold pos_zero; rewrite Hzz]; apply vequiv_refl.
+      + assert (Hnz : rc r <> 0) by (unfold is_zero in Hz; apply Z.eqb_neq; exact Hz).
+        assert (Hz'' : fl_s z' = zC).
+        { destruct Hb as [_ Hb0]. destruct (Hb0 true 0) as [_ E]. rewrite E in Hzz'. injection Hzz' as <-. reflexivity. }
+        assert (Hcore : forall nfix reach, pos_ok maxv p (mps_nmin p emin) r nfix ->
+                  vequiv (sem (f2f_round s nfix reach) (FFin r)) (vround c (FFin r))).
+        { intros nfix reach Hpos. eapply vequiv_trans; [apply f2f_round_equiv|].
+          apply (bounded_core c U maxv negv p (mps_nmin p emin) rm ovr true zC Hb Hbo Hmirror Hovw Hnonfin s
+                   eq_refl eq_refl Hz'' Hpol r nfix reach Hw Hnz Hpos). }
+        cbn [ff_em ff_pmax ff_expmax s]. cbv zeta.
+        destruct (Z.ltb_spec (rf_e r) emin) as [Hlt|Hge].
+        * apply Hcore. left. apply f2f_pos_sub. exact Hlt.
+        * destruct (Z_le_gt_dec (rf_e r - p + 1) (rf_e maxv - p + 1)) as [Hle|Hgt].
+          { apply Hcore. left. apply f2f_pos_normal; assumption. }
+          { apply Hcore. right. rewrite f2f_pos_clamped' by lia. destruct Hbo as (Hp1 & _). simpl in Hp1. lia. }
+    - cbn [ff_ninf ff_pinf s]. destruct sg; [rewrite Hbb'|fold pos_inf; rewrite Hbb]; apply vequiv_refl.
+    - cbn [ff_nan s]. rewrite Hnan. fold pos_nan. rewrite Ha. apply vequiv_refl.
+  Qed.
+End BoundedAssembly.
+
+(* ---------------------------------------------------------------- float_to_fixed_ctx_eq *)
+Lemma special_float_nan sp sg : special_float sp (FNaN sg) = special_float sp (FNaN false).
+Proof. reflexivity. Qed.
+
+(* round_F(x) = round_{A(inf, n(x), B)}(x): the emitted program -- the special
+   ladder, logb, the subnormal branch `e < emin` at the constant position, the
+   clamp of the computed position, the fixed-point context with the float's own
+   bound and overflow rule -- returns what the float context returns, for
+   MPFloat, MPSFloat, MPBFloat and EFloat/IEEE sources, every mode and
+   overflow policy the transform accepts, every operand *)
+Theorem float_to_fixed_ctx_eq fx c s x :
+  f2f_describe fx c = Some s -> f2f_ctx_ok c ->
+  (fx_degenerate fx = true \/ f2f_nondegenerate c) ->
+  fl_wf x ->
+  vequiv (sem (f2f_lp s) x) (vround c x).
+Proof.
+  intros Hd Hok Hdeg Hw. unfold f2f_describe in Hd.
+  destruct (deterministic c) eqn:Hdet; [|discriminate]. cbn [negb] in Hd.
+  unfold deterministic, ctx_k in Hdet.
+  destruct c; try discriminate; cbn [f2f_parts] in Hd; cbv beta zeta iota in Hd.
+  - (* MPFloat *)
+    destruct k as [[| |]|]; try discriminate. cbn [f2f_ctx_ok] in Hok.
+    destruct (vround (CMPFloat pmax rm (Some 0) sp) pos_nan) as [a|] eqn:Ea; [|discriminate].
+    destruct (vround (CMPFloat pmax rm (Some 0) sp) pos_inf) as [b|] eqn:Eb; [|discriminate].
+    destruct (vround (CMPFloat pmax rm (Some 0) sp) (FInf true)) as [b'|] eqn:Eb'; [|discriminate].
+    destruct (vround (CMPFloat pmax rm (Some 0) sp) pos_zero) as [z|] eqn:Ez; [|discriminate].
+    destruct (vround (CMPFloat pmax rm (Some 0) sp) (FFin (RF true 0 0))) as [z'|] eqn:Ez'; [|discriminate].
+    injection Hd as <-. rewrite sem_f2f_lp.
+    destruct x as [r|sg|sg].
+    + destruct (is_zero r) eqn:Hz.
+      * rewrite (vround_zero _ r ltac:(discriminate) Hz). cbn [ff_nz ff_pz].
+        destruct (rs r); [rewrite Ez'|fold zero_rf; fold pos_zero; rewrite Ez]; apply vequiv_refl.
+      * assert (Hnz : rc r <> 0) by (unfold is_zero in Hz; apply Z.eqb_neq; exact Hz).
+        cbn [ff_em ff_pmax ff_expmax]. cbv zeta.
+        eapply vequiv_trans; [apply f2f_round_equiv|].
+        destruct (float_to_fixed_eq_flx r pmax rm Hw Hnz Hok) as (y & f & y' & f' & Ry & Ry' & Hv & Sy & Sy' & Wy & Wy' & _).
+        rewrite (mpfloat_fin pmax rm sp r y f Hnz Ry).
+        assert (Hzs : fl_s z' = true).
+        { unfold vround, ctx_round0, ctx_round, round_mpfloat in Ez'. cbn in Ez'. injection Ez' as <-. reflexivity. }
+        unfold f2f_ctx. cbn [ff_policy ff_maxv ff_rm ff_nz]. rewrite Hzs.
+        rewrite f2f_pos_flx.
+        rewrite (reach_holds (rf_e r - pmax) _ rm r y' f' Hw Hnz); [| |unfold f2f_pos; lia|exact Ry'].
+        -- cbn [vequiv fl_equiv]. split; [symmetry; exact Hv|congruence].
+        -- unfold f2f_pos. lia.
+    + cbn [ff_ninf ff_pinf]. destruct sg; [rewrite Eb'|fold pos_inf; rewrite Eb]; apply vequiv_refl.
+    + cbn [ff_nan]. replace (vround (CMPFloat pmax rm (Some 0) sp) (FNaN sg)) with (vround (CMPFloat pmax rm (Some 0) sp) pos_nan) by reflexivity.
+      rewrite Ea. apply vequiv_refl.
+  - (* MPSFloat *)
+    destruct k as [[| |]|]; try discriminate. cbn [f2f_ctx_ok] in Hok.
+    destruct (vround (CMPSFloat pmax emin rm (Some 0) sp) pos_nan) as [a|] eqn:Ea; [|discriminate].
+    destruct (vround (CMPSFloat pmax emin rm (Some 0) sp) pos_inf) as [b|] eqn:Eb; [|discriminate].
+    destruct (vround (CMPSFloat pmax emin rm (Some 0) sp) (FInf true)) as [b'|] eqn:Eb'; [|discriminate].
+    destruct (vround (CMPSFloat pmax emin rm (Some 0) sp) pos_zero) as [z|] eqn:Ez; [|discriminate].
+    destruct (vround (CMPSFloat pmax emin rm (Some 0) sp) (FFin (RF true 0 0))) as [z'|] eqn:Ez'; [|discriminate].
+    injection Hd as <-. rewrite sem_f2f_lp.
+    destruct x as [r|sg|sg].
+    + destruct (is_zero r) eqn:Hz.
+      * rewrite (vround_zero _ r ltac:(discriminate) Hz). cbn [ff_nz ff_pz].
+        destruct (rs r); [rewrite Ez'|fold zero_rf; fold pos_zero; rewrite Ez]; apply vequiv_refl.
+      * assert (Hnz : rc r <> 0) by (unfold is_zero in Hz; apply Z.eqb_neq; exact Hz).
+        cbn [ff_em ff_pmax ff_expmax]. cbv zeta.
+        destruct (float_to_fixed_eq r pmax (mps_nmin pmax emin) rm Hw Hnz Hok) as (y & f & y' & f' & Ry & Ry' & Hv & Sy & Sy' & Wy & Wy' & _).
+        rewrite (mpsfloat_fin pmax emin rm sp r y f Hnz Ry).
+        assert (Hzs : fl_s z' = true).
+        { unfold vround, ctx_round0, ctx_round, round_mpsfloat in Ez'. cbn in Ez'. injection Ez' as <-. reflexivity. }
+        assert (Hfin : fl_equiv (FFin y') (FFin y)) by (cbn [fl_equiv]; split; [symmetry; exact Hv|congruence]).
+        destruct (Z.ltb_spec (rf_e r) emin) as [Hlt|Hge].
+        -- eapply vequiv_trans; [apply f2f_round_equiv|].
+           unfold f2f_ctx. cbn [ff_policy ff_maxv ff_rm ff_nz]. rewrite Hzs.
+           rewrite (f2f_pos_sub pmax emin (rf_e r) Hlt).
+           rewrite (reach_holds _ emin rm r y' f' Hw Hnz); [exact Hfin| | |exact Ry']; unfold mps_nmin; lia.
+        -- eapply vequiv_trans; [apply f2f_round_equiv|].
+           unfold f2f_ctx. cbn [ff_policy ff_maxv ff_rm ff_nz]. rewrite Hzs.
+           rewrite (f2f_pos_normal_unbounded pmax emin (rf_e r) Hge).
+           rewrite (reach_holds _ _ rm r y' f' Hw Hnz); [exact Hfin| | |exact Ry']; unfold f2f_pos, mps_nmin; lia.
+    + cbn [ff_ninf ff_pinf]. destruct sg; [rewrite Eb'|fold pos_inf; rewrite Eb]; apply vequiv_refl.
+    + cbn [ff_nan]. replace (vround (CMPSFloat pmax emin rm (Some 0) sp) (FNaN sg)) with (vround (CMPSFloat pmax emin rm (Some 0) sp) pos_nan) by reflexivity.
+      rewrite Ea. apply vequiv_refl.
+  - (* MPBFloat *)
+    destruct k as [[| |]|]; try discriminate. cbn [f2f_ctx_ok] in Hok.
+    destruct Hok as [Hsub Hfmt]. cbn [uo_parts] in Hfmt. destruct Hfmt as (Hp1 & Wp & Wn & Sp & Gp & Gn).
+    assert (Cp : rc pos_max <> 0).
+    { destruct Hdeg as [Hf|Hn]; [|exact Hn]. rewrite Hf in Hd. cbn [andb] in Hd.
+      destruct (Z.eqb_spec (rc pos_max) 0); [discriminate|assumption]. }
+    destruct (fx_degenerate fx && (rc pos_max =? 0)); [discriminate|].
+    destruct (rf_eqb neg_max (neg_rf pos_max)) eqn:Hmir; [|discriminate]. cbn [negb] in Hd.
+    destruct (rexp pos_max <? rf_e pos_max - pmax + 1); [discriminate|].
+    destruct (f2f_policy _ pos_max neg_max) as [pol|] eqn:Hpol; [|discriminate].
+    set (c := CMPBFloat pmax emin pos_max neg_max rm ov (Some 0) sp) in *.
+    destruct (vround c pos_nan) as [a|] eqn:Ea; [|discriminate].
+    destruct (vround c pos_inf) as [b|] eqn:Eb; [|discriminate].
+    destruct (vround c (FInf true)) as [b'|] eqn:Eb'; [|discriminate].
+    destruct (vround c pos_zero) as [z|] eqn:Ez; [|discriminate].
+    destruct (vround c (FFin (RF true 0 0))) as [z'|] eqn:Ez'; [|discriminate].
+    injection Hd as <-.
+    destruct (mirror_facts pos_max neg_max Wp Wn Sp Cp Hmir) as (Hm & Sn & Cn).
+    apply (bounded_assembly c (CMPSFloat pmax emin rm (Some 0) sp_default) pos_max neg_max pmax emin rm
+             (ovr_float pos_max neg_max rm ov sp) true); try assumption.
+    + apply mpbfloat_bounded. exact Hp1.
+    + repeat split; assumption.
+    + intros sg v. apply ovr_float_wf; assumption.
+    + intros sg v. apply ovr_float_nonfinite.
+    + intros sg. reflexivity.
+    + discriminate.
+  - (* EFloat *)
+    destruct k as [[| |]|]; try discriminate. cbn [f2f_ctx_ok] in Hok.
+    destruct Hok as [Hsub Hfmt]. cbn [uo_parts] in Hfmt.
+    destruct (efloat_valid es nbits enable_inf nk) eqn:Hv; [|discriminate]. cbn [negb] in Hd, Hfmt.
+    destruct (eoffset =? 0) eqn:Heo; [|discriminate]. cbn [negb] in Hd.
+    destruct (ext_to_mpb es nbits enable_inf nk eoffset) as [[[p0 em] mv]|] eqn:He; [|discriminate].
+    destruct Hfmt as (Hp1 & Wp & Wn & Sp & Gp & Gn).
+    assert (Cp : rc mv <> 0).
+    { destruct Hdeg as [Hf|Hn].
+      - rewrite Hf in Hd. cbn [andb] in Hd. destruct (Z.eqb_spec (rc mv) 0); [discriminate|assumption].
+      - unfold f2f_nondegenerate in Hn. cbn [uo_parts] in Hn. rewrite Hv, He in Hn. exact Hn. }
+    destruct (fx_degenerate fx && (rc mv =? 0)); [discriminate|].
+    destruct (rf_eqb (neg_rf mv) (neg_rf mv)) eqn:Hmir; [|discriminate]. cbn [negb] in Hd.
+    destruct (rexp mv <? rf_e mv - p0 + 1); [discriminate|].
+    destruct (f2f_policy _ mv (neg_rf mv)) as [pol|] eqn:Hpol; [|discriminate].
+    set (c := CEFloat es nbits enable_inf nk eoffset rm ov (Some 0) nan_value inf_value) in *.
+    destruct (vround c pos_nan) as [a|] eqn:Ea; [|discriminate].
+    destruct (vround c pos_inf) as [b|] eqn:Eb; [|discriminate].
+    destruct (vround c (FInf true)) as [b'|] eqn:Eb'; [|discriminate].
+    destruct (vround c pos_zero) as [z|] eqn:Ez; [|discriminate].
+    destruct (vround c (FFin (RF true 0 0))) as [z'|] eqn:Ez'; [|discriminate].
+    injection Hd as <-. destruct Hsub as [Hnv Hiv].
+    destruct (mirror_facts mv (neg_rf mv) Wp Wn Sp Cp Hmir) as (Hm & Sn & Cn).
+    apply (bounded_assembly c (CMPSFloat p0 em rm (Some 0) sp_default) mv (neg_rf mv) p0 em rm
+             (fun sg => fixup_val enable_inf nk nan_value inf_value mv (ovr_float mv (neg_rf mv) rm ov sp_default sg))
+             (negb (is_negzero nk))); try assumption.
+    + apply efloat_bounded; assumption.
+    + repeat split; assumption.
+    + intros sg v. destruct (ovr_float mv (neg_rf mv) rm ov sp_default sg) as [w|] eqn:Ew; [|discriminate].
+      cbn [fixup_val]. intros [= <-]. apply fixup_wf; try assumption.
+      eapply ovr_float_wf; [exact Wp|exact Wn|exact sp_default_wf|exact Ew].
+    + intros sg v Hr Hf. destruct (fixup_val_nonfinite _ _ _ _ _ _ _ Hr Hf) as (w & Ew & Hfw).
+      eapply ovr_float_nonfinite; eassumption.
+    + intros sg. unfold c, vround, ctx_round0, ctx_round, round_efloat. rewrite Hv, He. reflexivity.
+    + discriminate.
+Qed.
